@@ -28,6 +28,9 @@ import (
 	"github.com/influxdata/influxdb/v2/tsdb/engine/tsm1"
 	_ "github.com/influxdata/influxdb/v2/tsdb/index"
 	"github.com/influxdata/influxql"
+	"go.uber.org/zap"
+	"go.uber.org/zap/zapcore"
+	"go.uber.org/zap/zaptest/observer"
 	"verif/dsim/hx"
 	"verif/dsim/model"
 	"verif/dsim/simfs"
@@ -153,6 +156,8 @@ type world struct {
 	clipMin, clipMax int64  // when viewRet is set: only cells inside [clipMin, clipMax] are expected (export)
 	shardID uint64
 	backups int
+	logger   *zap.Logger
+	logs     *observer.ObservedLogs // warnings of the shard (known finding C38-F3 is identified by one of them)
 	reopenMu sync.Mutex
 	reopens [][2]uint64 // intervals of concurrent shard close+reopen operations (Ret = Inf while in flight)
 	arrived map[int]int // rendezvous id -> clients that reached it
@@ -213,6 +218,12 @@ func (w *world) open(root string) error {
 		id = 1
 	}
 	w.sh = tsdb.NewShard(id, filepath.Join(root, "data", "db0", "rp0", fmt.Sprint(id)), filepath.Join(root, "wal", "db0", "rp0", fmt.Sprint(id)), w.sfile, w.opt)
+	if w.logs == nil {
+		var core zapcore.Core
+		core, w.logs = observer.New(zapcore.WarnLevel)
+		w.logger = zap.New(core)
+	}
+	w.sh.WithLogger(w.logger)
 	if err := w.sh.Open(context.Background()); err != nil {
 		w.sfile.Close()
 		return fmt.Errorf("shard: %w", err)
@@ -282,6 +293,7 @@ func gen(r *hx.Run) []json.RawMessage {
 	wTyped := r.CfgInt("wtyped", 0)
 	wBackup := r.CfgInt("wbackup", 0)
 	wCReopen := r.CfgInt("wcreopen", 0)
+	wCompEn := r.CfgInt("wcompen", 0)
 	wRace := r.CfgInt("wrace", 1)
 	if clients < 2 {
 		wRace = 0
@@ -292,9 +304,14 @@ func gen(r *hx.Run) []json.RawMessage {
 	for i := 0; i < nops; i++ {
 		var p op
 		p.C = o.Choose(clients, "client")
-		switch o.Pick("op", 10, wRead, wDel, wDM, wSnap, wFull, 4, wBulk, wReopen, wTyped, wBackup, wRace, wCReopen) {
+		switch o.Pick("op", 10, wRead, wDel, wDM, wSnap, wFull, 4, wBulk, wReopen, wTyped, wBackup, wRace, wCReopen, wCompEn) {
 		case 12:
 			p.K = "creopen"
+		case 13:
+			// what Store.monitorShards does to an idle shard (Free: compactions and snapshots off) and undoes
+			// when the shard is written again
+			p.K = "compen"
+			p.N = o.Choose(2, "enable")
 		case 11:
 			// two (or three) clients write the same brand-new field of one measurement at the same time, late
 			// in the history (the field index is no longer empty): the creation of the field and its
@@ -699,6 +716,10 @@ func (w *world) doOp(p op) {
 			r.Violate("C02:reopen-error", "reopen", "clean reopen failed: %v", err)
 		}
 		r.Probe("clean_reopen")
+	case "compen":
+		w.sh.SetCompactionsEnabled(p.N == 1)
+		r.Probe(fmt.Sprintf("probe_compactions_enabled_%d", p.N))
+		r.Logf("c%d SetCompactionsEnabled(%v)", p.C, p.N == 1)
 	case "creopen":
 		// close and reopen the SHARD (the series file stays open, as in a Store) while the other clients keep
 		// using it: nothing may race, deadlock or panic; operations overlapping the window may be refused
@@ -712,6 +733,7 @@ func (w *world) doOp(p op) {
 			id = 1
 		}
 		nsh := tsdb.NewShard(id, filepath.Join(w.root, "data", "db0", "rp0", fmt.Sprint(id)), filepath.Join(w.root, "wal", "db0", "rp0", fmt.Sprint(id)), w.sfile, w.opt)
+		nsh.WithLogger(w.logger)
 		oerr := nsh.Open(ctx)
 		if oerr == nil {
 			w.sh = nsh
@@ -797,6 +819,7 @@ func (w *world) doBackup(p op) {
 	}
 	inv := w.stamp()
 	var err error
+	busyBefore := w.snapshotterBusyWarnings()
 	clipMin, clipMax := int64(math.MinInt64), int64(math.MaxInt64)
 	if p.N == 2 {
 		clipMin, clipMax = slotTS(p.Min), slotTS(p.Max)
@@ -852,9 +875,21 @@ func (w *world) doBackup(p op) {
 	w2.readAll(model.Inf, fmt.Sprintf("restored-from-%s taken at [%d,%d]", what, inv, ret))
 	for i := before; i < len(r.Viol); i++ {
 		r.Viol[i].Sig += ":" + kindSig
+		if w.snapshotterBusyWarnings() > busyBefore {
+			// known finding C38-F3: the engine said so itself ("Snapshotter busy: proceeding without cache contents")
+			r.Viol[i].Sig += ":snapshotter-busy-cache-skipped"
+		}
 	}
 	w2.close()
 	r.Logf("c%d %s [%d,%d] %d bytes restored and compared", p.C, what, inv, ret, buf.Len())
+}
+
+// snapshotterBusyWarnings counts the engine's own admission that a backup/export went on without the cache.
+func (w *world) snapshotterBusyWarnings() int {
+	if w.logs == nil {
+		return 0
+	}
+	return w.logs.FilterMessageSnippet("proceeding without cache contents").Len()
 }
 
 // benignBackupErr: a backup may be refused while another operation has snapshots disabled or one in flight.
@@ -1315,6 +1350,12 @@ func (w *world) dump(s, f int) string {
 		out += fmt.Sprintf("[%s tomb=%v min=%d max=%d] ", filepath.Base(st.Path), st.HasTombstone, st.MinTime, st.MaxTime)
 	}
 	for _, tf := range e.FileStore.Files() {
+		out += fmt.Sprintf("<%s keys:", filepath.Base(tf.Path()))
+		for i := 0; i < tf.KeyCount() && i < 40; i++ {
+			k, _ := tf.KeyAt(i)
+			out += fmt.Sprintf(" %q", k)
+		}
+		out += "> "
 		if tf.Contains(key) {
 			out += fmt.Sprintf("{%s contains key; tombstones=%v blocks:", filepath.Base(tf.Path()), tf.TombstoneRange(key))
 			var ents []tsm1.IndexEntry
@@ -1329,7 +1370,7 @@ func (w *world) dump(s, f int) string {
 	}
 	if w.r.FS != nil {
 		for _, l := range w.r.FS.Log {
-			if (strings.Contains(l, ".tsm") || strings.Contains(l, "tombstone")) && !strings.Contains(l, " write ") && !strings.Contains(l, "untracked") {
+			if strings.Contains(l, ".tsm") || strings.Contains(l, "tombstone") || strings.Contains(l, ".wal") {
 				out += "\n    " + l
 			}
 		}
